@@ -1,4 +1,5 @@
 import BigtoolsModel.RTBuild
+import BigtoolsModel.OverlapsGen
 import BigtoolsModel.RTLayout
 import BigtoolsModel.CirSer
 import BigtoolsModel.CirBytes
@@ -70,3 +71,14 @@ theorem C05_byte_search_eq_abstract_search (e : Endian) (s : Src) (nlb qc qs qe 
   searchCir_eq_search e s nlb qc qs qe off t h
 
 end BBI
+
+namespace RT
+
+/-- **The code's own pruning predicate.** `Gen.overlaps` is regenerated from the Rust source of `overlaps` (and of the
+    functions it calls) in bbiread.rs on every run; for all arguments it is the `ov` with which the search theorems
+    of the index search are stated. A change to the source that alters the predicate breaks this obligation. -/
+theorem C05_source_overlaps_is_the_models_ov (q qs qe b1 b1s b2 b2e : Nat) :
+    Gen.overlaps q qs qe b1 b1s b2 b2e = ov ⟨q, qs⟩ ⟨q, qe⟩ ⟨b1, b1s⟩ ⟨b2, b2e⟩ :=
+  gen_overlaps_eq_ov q qs qe b1 b1s b2 b2e
+
+end RT
